@@ -644,7 +644,9 @@ int cmd_run(const RunCfg& cfg) {
                     fail_desc = r.desc;
                 }
             }
-            reproducible = replay_ok == 3;
+            // a failure must reproduce in all 3 fresh replays; ThreadSanitizer reports depend on the OS
+            // schedule of real threads, for them 2 of 3 is required (DESIGN 2.3)
+            reproducible = replay_ok == 3 || (replay_ok >= 2 && fail_label.compare(0, 11, "crash/tsan:") == 0);
         }
         write_file(cfg.outdir + "/fail.case", fail_buf.data(), fail_buf.size());
     }
